@@ -2,3 +2,5 @@ import Drive.Util
 import Drive.Timer
 import Drive.Interp
 import Drive.Btdmp
+import Drive.Apbp
+import Drive.Icu
